@@ -911,9 +911,12 @@ def main():
     a = args()
     run = Run(PID, a.tier)
     thorough = a.tier == "thorough"
-    cfgs = ["prod-san", "cfg-int64-noasm-w8-c22", "prod-verify", "cfg-i128struct-noasm-w2-c2"]
+    cfgs = ["prod-san", "cfg-int64-noasm-w8-c22", "prod-verify", "cfg-i128struct-noasm-w2-c2", "cfg-i128-noasm-w8-c2"]
+    # quick: the fifth configuration (native int128, C instead of x86-64 asm: field_5x52_int128_impl.h and the C scalar_4x64 paths,
+    # which the pinned ctest build never compiles) runs the arithmetic phases only; the byte-oriented hash code does not depend on it
+    arith_only = [] if thorough else ["cfg-i128-noasm-w8-c2"]
     if thorough:
-        cfgs += ["cfg-int64-san-w15", "cfg-i128-noasm-w8-c2", "cfg-i128struct-asm-w15", "cfg-int64-noasm-w2-c86-clang", "cfg-i128-noasm-w5-c22-clang", "prod-fast"]
+        cfgs += ["cfg-int64-san-w15", "cfg-i128struct-asm-w15", "cfg-int64-noasm-w2-c86-clang", "cfg-i128-noasm-w5-c22-clang", "prod-fast"]
     sgs = ["sg13-verify"] + (["sg13", "sg7-verify", "sg199"] if thorough else [])
     import os
     if os.environ.get("VERIF_CFGS"):
@@ -956,6 +959,8 @@ def main():
         run_phase(run, "%s/ecmult" % cfg, ecmult_case, [(x, ngs if main_cfg else ngs[:3], plogs) for x in ss], setup=lambda c=cfg: EEnv(c),
                   rule="ecmult(na, ng), ecmult_const, ecmult_const_xonly (no / 3 denominators, with and without curve check), ecmult_gen under 5 blinding states for na in SC, ng in 6 values, 6 points (z-rescaled)")
         run_phase(run, "%s/xonly-curve-check" % cfg, xonly_off_curve_case, chunks(FE, 8), setup=lambda c=cfg: GEnv(c))
+        if cfg in arith_only:
+            continue
         if thorough:
             sizes = list(range(0, 301))
         elif main_cfg:
